@@ -141,4 +141,17 @@ example : posToLineCol "ab\ncd\r\n\nx".toList 9 = (4, 2) := by decide
 example : getLocation exHeap (fun _ => "m a b\nc d".toList) (fun _ => some 7) 5 3
     = some { line := 2, col := 1, nchar := 1, file := some 7 } := by decide
 
+/-! several models in one heap (a model that imports another one): objects 0-1 belong to the model rooted at 0
+(file 1, text `"\nitem a"`), objects 2-3 to the model rooted at 2 (no file name, text `"x\n\n item b"`); object 1
+refers to object 3 (not a containment).  Each location uses the input and the file name of the object's own root. -/
+def exTwo : Heap :=
+  [ { cls := 2, parent := none, pos := 1, posEnd := 7, attrs := [(⟨0, true, true⟩, .many [.obj 1])] },
+    { cls := 1, parent := some 0, pos := 1, posEnd := 7, attrs := [(⟨1, false, false⟩, .one (.obj 3))] },
+    { cls := 2, parent := none, pos := 4, posEnd := 10, attrs := [(⟨0, true, true⟩, .many [.obj 3])] },
+    { cls := 1, parent := some 2, pos := 4, posEnd := 10, attrs := [] } ]
+def exTwoInput (r : Nat) : List Char := if r = 0 then "\nitem a".toList else "x\n\n item b".toList
+def exTwoFile (r : Nat) : Option Nat := if r = 0 then some 1 else none
+example : getLocation exTwo exTwoInput exTwoFile 5 1 = some { line := 2, col := 1, nchar := 6, file := some 1 } := by decide
+example : getLocation exTwo exTwoInput exTwoFile 5 3 = some { line := 3, col := 2, nchar := 6, file := none } := by decide
+
 end Obj
